@@ -36,13 +36,23 @@ pub fn run_c20(args: &Args) -> i32 {
             w.fps = 1;
         }));
     }
+    // the sync-reset path needs a queued third-party change and two false positives at once
+    models.push(model("sync2[third-party orphan, fp=2]", 2, &[(0, 1)], &["third-party-orphan"], |w| {
+        w.edits = vec![0, 0];
+        w.fps = 2;
+        // false positives only on the changes of the two outside actors (o / d and r)
+        w.fp_actors = vec![0x70, 0x7f];
+        // one message per direction at a time (the interleavings of longer queues are explored by the
+        // other models)
+        w.max_in_flight = 1;
+    }));
     let lim = Limits {
         max_wall_s: if args.thorough() { 1700.0 } else { 50.0 },
         ..Default::default()
     };
     let ex = run_models(&rep, args, models, &lim).unwrap_or(false);
     rep.finish(
-        "explicit-state BFS over two real peers (doc + sync::State each), two FIFO channels of encoded messages (every message passes Message::encode/decode); actions: generate, deliver, local edit, generate under one injected Bloom false positive (hook) for each hash the other side lacks; start worlds: empty/empty, history vs empty, common base, diverged, one ahead, orphan in queue; frontier run to exhaustion (budgets bound the space); oracle in every state: a fair completion (deliver all, all generate, repeat) goes quiet within 10 rounds with equal heads and equal reads, and a second completion produces nothing; no receive returns Err",
+        "explicit-state BFS over two real peers (doc + sync::State each), two FIFO channels of encoded messages (every message passes Message::encode/decode); actions: generate, deliver, local edit, generate under one injected Bloom false positive (hook) for each hash the other side lacks; start worlds: empty/empty, history vs empty, common base, diverged, one ahead, orphan in queue, and (with two false positives) a queued third-party change whose parent only the other peer has plus a separate root; frontier run to exhaustion (budgets bound the space); oracle in every state: a fair completion (deliver all, all generate, repeat) goes quiet within 10 rounds with equal heads and equal reads, and a second completion produces nothing; no receive returns Err",
         &["the hook only turns a negative Bloom answer into a positive one, for non-empty filters", "reliable in-order links (C21 covers drops)"],
         ex,
     )
